@@ -50,12 +50,16 @@ impl From<&Regions> for Layout {
 
 impl Layout {
     fn insert_hole(&mut self, start: usize, size: usize) {
+        #[cfg(anydb_verif)]
+        crate::verif_tap::emit(crate::verif_tap::Event::Layout { kind: "insert_hole", start, size });
         self.start_to_hole.insert(start, size);
         self.hole_to_starts.entry(size).or_default().push(start);
     }
 
     fn remove_hole(&mut self, start: usize) -> Option<usize> {
         let size = self.start_to_hole.remove(&start)?;
+        #[cfg(anydb_verif)]
+        crate::verif_tap::emit(crate::verif_tap::Event::Layout { kind: "remove_hole", start, size });
 
         if let Some(starts) = self.hole_to_starts.get_mut(&size) {
             starts.retain(|s| *s != start);
@@ -129,6 +133,8 @@ impl Layout {
     }
 
     pub fn insert_region(&mut self, start: usize, region: &Region) {
+        #[cfg(anydb_verif)]
+        crate::verif_tap::emit(crate::verif_tap::Event::Layout { kind: "insert_region", start, size: region.index() });
         assert!(self.start_to_region.insert(start, region.clone()).is_none())
     }
 
@@ -152,6 +158,8 @@ impl Layout {
             return Err(Error::RegionIndexMismatch);
         }
 
+        #[cfg(anydb_verif)]
+        crate::verif_tap::emit(crate::verif_tap::Event::Layout { kind: "pending", start, size: reserved });
         self.pending_holes.insert(start, reserved);
 
         Ok(())
@@ -189,17 +197,23 @@ impl Layout {
     }
 
     pub fn reserve(&mut self, start: usize, reserved: usize) {
+        #[cfg(anydb_verif)]
+        crate::verif_tap::emit(crate::verif_tap::Event::Layout { kind: "reserve", start, size: reserved });
         if self.start_to_reserved.insert(start, reserved).is_some() {
             unreachable!();
         }
     }
 
     pub fn take_reserved(&mut self, start: usize) -> Option<usize> {
+        #[cfg(anydb_verif)]
+        crate::verif_tap::emit(crate::verif_tap::Event::Layout { kind: "take_reserved", start, size: 0 });
         self.start_to_reserved.remove(&start)
     }
 
     pub fn promote_pending_holes(&mut self, name: &str) {
         let count = self.pending_holes.len();
+        #[cfg(anydb_verif)]
+        crate::verif_tap::emit(crate::verif_tap::Event::Layout { kind: "promote", start: 0, size: count });
         if count > 0 {
             debug!("{}: promoted {} pending holes", name, count);
         }
